@@ -144,8 +144,10 @@ type Machine struct {
 	verdictDone map[uuid.UUID]bool
 	pre         []*PreJob
 	ended       bool
-	window      *SimRunner // non-nil while this runner is held inside Finish (its job is completing): API calls are issued from a goroutine and the runner is let go when the call blocks
-	detail      string     // non-deterministic detail for the log of the next failure
+	guardDepth  int
+	deferred    [][2]string // failures noted inside guarded calls
+	window      *SimRunner  // non-nil while this runner is held inside Finish (its job is completing): API calls are issued from a goroutine and the runner is let go when the call blocks
+	detail      string      // non-deterministic detail for the log of the next failure
 	reloaded    bool
 	forcedJobs  int
 	forced      bool
@@ -156,6 +158,11 @@ type failure struct{ msg string }
 // fail reports a violation of prop. Only armed properties fail the case.
 func (m *Machine) fail(prop, format string, args ...interface{}) {
 	msg := fmt.Sprintf(format, args...)
+	if m.guardDepth > 0 {
+		// inside a guarded call into the runner (another goroutine): reported when the call is over
+		m.deferred = append(m.deferred, [2]string{prop, msg})
+		return
+	}
 	if prop == "*" || m.cfg.armed(prop) {
 		p := prop
 		if p == "*" {
@@ -360,6 +367,9 @@ func (m *Machine) Close() {
 		}
 	}
 	w.cancel()
+	if w.snapReq != nil {
+		close(w.snapReq)
+	}
 	if m.mem.Dir != "" {
 		_ = os.RemoveAll(m.mem.Dir)
 	}
@@ -829,7 +839,40 @@ func (m *Machine) ActFinish(t *rapid.T, failPct int) {
 			out.ErrText = payload.GenNonEmptyString(t, "errText")
 		}
 	}
+	// now and then the report of the task's end competes with slow readers of the runner (callbacks of
+	// IterateJobs that take a while): the reports of the task and of its stage then wait for the runner's lock
+	// while the scheduler loop of the job goes on polling
+	pressure := out.Kind != OutOK && pct(t, 25, "readerPressure")
+	var stop chan struct{}
+	var readers sync.WaitGroup
+	if pressure {
+		m.w.Stats.hit("finish:failure-under-reader-pressure")
+		stop = make(chan struct{})
+		for i := 0; i < 3; i++ {
+			readers.Add(1)
+			go func() {
+				defer readers.Done()
+				for {
+					select {
+					case <-stop:
+						return
+					default:
+					}
+					m.w.PR.IterateJobs(func(*prunner.PipelineJob) {
+						for s := time.Now(); time.Since(s) < 150*time.Microsecond; {
+						}
+					})
+				}
+			}()
+		}
+		time.Sleep(200 * time.Microsecond)
+	}
 	m.deliver(o, out)
+	if pressure {
+		time.Sleep(3 * time.Millisecond)
+		close(stop)
+		readers.Wait()
+	}
 	m.settle("finish")
 	m.afterStep()
 }
@@ -861,7 +904,23 @@ func (m *Machine) fireTimer(j *JobRec) {
 	if r, _ := m.jobsOf(m.snap, j.Pipeline); len(r) > 0 {
 		m.w.Stats.hit("timer:while-busy")
 	}
-	m.w.PR.StartDelayedJob(j.ID)
+	if !m.w.Call("StartDelayedJob", func() { m.w.PR.StartDelayedJob(j.ID) }) {
+		m.blocked()
+	}
+}
+
+// flushDeferred reports what guarded calls noted.
+func (m *Machine) flushDeferred() {
+	d := m.deferred
+	m.deferred = nil
+	for _, f := range d {
+		m.fail(f[0], "%s", f[1])
+	}
+}
+
+// blocked reports a runner that no longer answers.
+func (m *Machine) blocked() {
+	m.fail("*", "the runner is blocked: %s has not returned for %s", m.w.Blocked(), StallLimit)
 }
 
 func (m *Machine) ActTimer(t *rapid.T) {
@@ -934,7 +993,9 @@ func (m *Machine) ActSave(t *rapid.T) {
 	m.stimulus("save")
 	m.w.Stats.hit("save")
 	atomic.AddInt32(&m.mem.Explicit, 1)
-	m.w.PR.SaveToStore()
+	if !m.w.Call("SaveToStore", func() { m.w.PR.SaveToStore() }) {
+		m.blocked()
+	}
 	atomic.AddInt32(&m.mem.Explicit, -1)
 	m.settle("save")
 	m.afterStep()
@@ -1114,9 +1175,21 @@ func (m *Machine) checkVerdict(j *JobRec, js *JobSnap) {
 		if j.ForcedSeq != 0 && !j.CancelAcked {
 			allBefore = len(notOK) == 0 && lastExit < j.ForcedSeq
 		}
+		// a task (not allow_failure) that the stop request interrupted ends with the context error, which is the
+		// last error of the job: the job is then reported canceled whatever failed before
+		stopped := false
+		m.w.mu.Lock()
+		for _, r := range j.Runners {
+			for _, rec := range r.Runs {
+				if rec.ByCancel && !rec.Refused && rec.Returned && !rec.AllowFail {
+					stopped = true
+				}
+			}
+		}
+		m.w.mu.Unlock()
 		switch {
 		case js.Canceled:
-		case len(j.FailedTasks) > 0 && js.LastError != "":
+		case len(j.FailedTasks) > 0 && js.LastError != "" && !(stopped && j.CancelAcked):
 		case allBefore && plainSuccess && !j.CancelAcked:
 			// (a forced shutdown that found the job with all its tasks done; an acknowledged cancel request,
 			// in contrast, always ends in "canceled": the runner notes the request before it answers)
